@@ -6,7 +6,7 @@ mc keys: maxcalls, budget, apis, dirops, direvs (None = all events), ninst
 PLAIN = dict(throws=0.0, subs=0.0, enq=0.0, drain=0.0, restart=0.0, startsubs=0.0, maxcalls=8)
 RESTART = dict(throws=0.0, subs=0.0, enq=0.05, drain=0.05, restart=0.2, startsubs=0.0, maxcalls=9)
 QUEUE = dict(throws=0.0, subs=0.6, enq=0.15, drain=0.15, restart=0.03, startsubs=0.0, maxcalls=7)
-DEFER = dict(throws=0.0, subs=0.2, enq=0.1, drain=0.1, restart=0.0, startsubs=0.0, maxcalls=9)
+DEFER = dict(throws=0.0, subs=0.15, enq=0.08, drain=0.08, restart=0.0, startsubs=0.0, maxcalls=12, evbias=0.55)
 THROW = dict(throws=0.5, subs=0.15, enq=0.05, drain=0.05, restart=0.0, startsubs=0.0, maxcalls=7)
 MIXED = dict(throws=0.15, subs=0.25, enq=0.1, drain=0.1, restart=0.05, startsubs=0.0, maxcalls=7)
 
